@@ -215,6 +215,12 @@ def run(rep, tier):
     for h in HOSTS:
         mod = importlib.import_module(f"vf.props.{h}")
         before = dict(rep.cov)
+        if h == "c06" and tier == "quick":
+            # quick: the hierarchy programs without their feed-back repetitions (the thorough tier hosts them all)
+            class _Host:
+                explore = staticmethod(mod.explore)
+                tasks = staticmethod(lambda t, _m=mod: [x for x in _m.tasks(t) if not (len(x) > 8 and x[8])])
+            mod = _Host
         run_e1(rep, mod, tier, side="C09")
         hosts.append(h)
     # states reached after a save/restore or an ageing cut (C11's lock-step explorer as host)
